@@ -384,6 +384,8 @@ def run(ctx):
         # ---- h  what the scan reads of a chunk is hashed before the chunk's verdict
         from ..rules import dlrules as _dl9
         _dl9.read_reaches_hash(ck, prog, config, 'C09-h')
+        from . import c19 as _c19
+        _c19.shared_scratch(ck, prog, config, 'C09-i', tuple(VALIDATORS), 'validity scan')
         # ---- b, e
         for name in SCANS:
             fn = prog.need_func(name)
